@@ -139,7 +139,9 @@ type Engine struct {
 	funcFields  map[string]int
 	nnFields    map[string]int8
 	curRoot     string
-	funcsSeen   map[*ssa.Function]bool
+	// ptAlias: pseudo-field "T.w→" -> pseudo-fields of the objects a wrapper stored in w writes through to
+	ptAlias   map[string][]string
+	funcsSeen map[*ssa.Function]bool
 }
 
 // CallRec records the context of one call (for the locked-flag rule).
@@ -336,6 +338,7 @@ type RootSpec struct {
 // main function, and every goroutine / timer target discovered on the way.
 func (e *Engine) Run(scopePkgs []string) {
 	e.scope = scopePkgs
+	e.pointeeAliases()
 	var roots []RootSpec
 	act := uint64(1) << uint(e.classIdx["activity"])
 	for _, fn := range e.P.ModFuncs {
